@@ -111,6 +111,10 @@ func firstLine(s string) string {
 	return s
 }
 
+// Deep widens the finite tables and grids of the exact-decision rules (thorough tier): ORDERINGS and the typed
+// facades on a larger grid, COUNTING for more counter values, TYPE-TABLE with every Go numeric carrier.
+var Deep bool
+
 // Thorough runs the slower parts of the thorough tier: mutant witnesses (each in its own process, on a
 // scratch copy outside /repo and /verif that is removed at once) and the cross-reference tools, whose
 // output is recorded and never decides.
